@@ -14,8 +14,9 @@
    primality tests (mpz_probab_prime_p / miller_rabin_test, modelled by trial division
    [is_prime]), and Sieve::iterator (C33: yields exactly the primes in increasing order).
 
-   Layer 2 transcribes ntheory.cpp branch by branch.  Division by zero (SIGFPE in GMP,
-   std::overflow_error in boost) is [ErrExn EXN_DIVZERO]; SymEngineException is
+   Layer 2 transcribes ntheory.cpp branch by branch.  Division by zero inside the
+   multiprecision layer (SIGFPE in GMP, std::overflow_error in boost) is [ErrExn EXN_FPE],
+   DivisionByZeroError is [ErrExn EXN_DIVZERO]; SymEngineException is
    [ErrExn EXN_SYMENGINE]; std::runtime_error is [ErrExn EXN_STD].                        *)
 From SE Require Export Base.Prelude.
 From Coq Require Export ZArith.
@@ -24,7 +25,10 @@ Local Open Scope res_scope.
 
 Inductive cfg := GMP | BOOST.
 
-Definition divzero {A} : res A := ErrExn EXN_DIVZERO.
+(* an integer division by zero inside the multiprecision layer: SIGFPE with GMP,
+   std::overflow_error with boost (not a SymEngine exception) *)
+Definition EXN_FPE : N := 9.
+Definition divzero {A} : res A := ErrExn EXN_FPE.
 Definition exn_se {A} : res A := ErrExn EXN_SYMENGINE.
 Definition exn_std {A} : res A := ErrExn EXN_STD.
 
@@ -313,12 +317,14 @@ Definition nt_gcd (a b : Z) : Z := Z.gcd a b.
 Definition nt_lcm (a b : Z) : Z := Z.lcm a b.
 Definition nt_gcd_ext := gcdext.
 Definition nt_mod_inverse := invert.
-Definition nt_mod (n d : Z) : res Z := tdiv_r n d.
-Definition nt_quotient (n d : Z) : res Z := tdiv_q n d.
-Definition nt_quotient_mod (n d : Z) : res (Z * Z) := tdiv_qr n d.
-Definition nt_mod_f (n d : Z) : res Z := fdiv_r n d.
-Definition nt_quotient_f (n d : Z) : res Z := fdiv_q n d.
-Definition nt_quotient_mod_f (n d : Z) : res (Z * Z) := fdiv_qr n d.
+(* the six division functions throw DivisionByZeroError for a zero divisor *)
+Definition nz {A} (d : Z) (r : res A) : res A := if d =? 0 then ErrExn EXN_DIVZERO else r.
+Definition nt_mod (n d : Z) : res Z := nz d (tdiv_r n d).
+Definition nt_quotient (n d : Z) : res Z := nz d (tdiv_q n d).
+Definition nt_quotient_mod (n d : Z) : res (Z * Z) := nz d (tdiv_qr n d).
+Definition nt_mod_f (n d : Z) : res Z := nz d (fdiv_r n d).
+Definition nt_quotient_f (n d : Z) : res Z := nz d (fdiv_q n d).
+Definition nt_quotient_mod_f (n d : Z) : res (Z * Z) := nz d (fdiv_qr n d).
 Definition nt_divides (a b : Z) : bool := divisible a b.
 Definition nt_binomial := mp_bin.
 Definition nt_factorial := mp_fac.
